@@ -42,6 +42,7 @@ def run(ck, ctx):
                      "before the last file (a write reported durable lives in *some* file: a recovery that gives up at a damaged "
                      "neighbour loses it) - shared with C10 R10.1 / R10.3")
     from . import c10 as _c10t
+    ck.rule("R09.13", _c10t.WRITER_SEQ_TEXT + " (shared with C10 R10.12: the deleted active file holds fsynced, acknowledged entries)")
     ck.rule("R09.12", _c10t.JUDGE_TEXT + " (shared with C10 R10.11)")
     ck.rule("R09.11", _c10t.NAME_TEXT + " (shared with C10 R10.10: an fsynced file that the start-up scan does not recognise is neither replayed nor protected from being re-created)")
     ck.rule("R09.10", "truncation never deletes an fsynced entry that has not been streamed: every WalStore::delete in truncate_before is "
@@ -69,6 +70,7 @@ def run(ck, ctx):
         _c10.r109(ck, prog, cfg, "R09.9")
         _c10.r1010(ck, prog, cfg, "R09.11")
         _c10.r1011(ck, prog, cfg, "R09.12")
+        _c10.r1012(ck, prog, cfg, "R09.13")
         _c10.file_loop_rule(ck, prog, cfg, "R09.9")
 
 
